@@ -1,7 +1,7 @@
 //! Hostile but legal `Read` implementations: `std::io::Read::read` may return fewer bytes than asked for at any time
 //! (a `BufReader` over a file, a zip entry, a socket, two chained buffers all do). Code that calls `read` once where it
 //! needs `read_exact` only shows under such a reader; a `Cursor` over a slice never produces a short read.
-use std::io::{Read, Result, Seek, SeekFrom};
+use std::io::{Read, Result, Seek, SeekFrom, Write};
 
 /// Hands out the underlying bytes in chunks of `1..=max_chunk` bytes (deterministic in `seed`), and additionally never
 /// crosses one of the `seams` (absolute offsets) in a single call. `Seek` is supported (positions are those of the slice).
@@ -38,6 +38,26 @@ impl Seek for ChunkedReader<'_> {
     }
 }
 
+/// Hostile but legal `Write`: `write` accepts only `1..=max_chunk` bytes per call (deterministic in `seed`), as a pipe, a socket
+/// or a compressing writer may. Code that calls `write` where it needs `write_all` loses bytes only under such a writer; a
+/// `Vec<u8>` always takes everything. `flushes` counts `flush` calls (a `BufWriter` wrapped around it must be flushed or
+/// dropped before `data` is complete).
+pub struct ChunkedWriter { pub data: Vec<u8>, state: u64, max_chunk: usize, pub short_writes: u64, pub flushes: u64 }
+impl ChunkedWriter {
+    pub fn new(seed: u64, max_chunk: usize) -> Self { ChunkedWriter { data: vec![], state: seed | 1, max_chunk: max_chunk.max(1), short_writes: 0, flushes: 0 } }
+    fn next(&mut self) -> u64 { let mut x = self.state; x ^= x << 13; x ^= x >> 7; x ^= x << 17; self.state = x; x }
+}
+impl Write for ChunkedWriter {
+    fn write(&mut self, buf: &[u8]) -> Result<usize> {
+        if buf.is_empty() { return Ok(0); }
+        let n = (1 + (self.next() as usize) % self.max_chunk).min(buf.len());
+        if n < buf.len() { self.short_writes += 1; }
+        self.data.extend_from_slice(&buf[..n]);
+        Ok(n)
+    }
+    fn flush(&mut self) -> Result<()> { self.flushes += 1; Ok(()) }
+}
+
 #[cfg(test)]
 mod tests {
     use super::*;
@@ -50,5 +70,12 @@ mod tests {
         let mut r = ChunkedReader::new(&data, 1, 3);
         let mut four = [0u8; 4]; r.read_exact(&mut four).unwrap(); assert_eq!(&four, &data[..4]);
         r.seek(SeekFrom::Start(100)).unwrap(); r.read_exact(&mut four).unwrap(); assert_eq!(&four, &data[100..104]);
+    }
+    #[test]
+    fn takes_everything_in_short_writes() {
+        let data: Vec<u8> = (0..10_000u32).map(|i| (i * 11) as u8).collect();
+        let mut w = ChunkedWriter::new(7, 5);
+        w.write_all(&data).unwrap(); w.flush().unwrap();
+        assert_eq!(w.data, data); assert!(w.short_writes > 100); assert_eq!(w.flushes, 1);
     }
 }
